@@ -5,7 +5,8 @@ import Chewing.Model.CompositionOps
 * `cursor_stack` (field `stack`) is a `Vec<usize>`: `push` appends at the end, `pop` takes from the
   end; the model keeps the same order (`l ++ [x]`, `getLast?`, `dropLast`).
 * `usize::saturating_sub` is `Nat` subtraction; `min` is `Nat.min`.
-* `clear` does NOT clear `cursor_stack` (as coded; DESIGN F25 is about that and belongs to C17).
+* `clear` also clears `cursor_stack` (since the `fix:` commit for DESIGN F25, see Props/C17.lean; before it
+  the saved cursors survived a reset).
 * `self.cursor += 1` in `insert` cannot overflow below 2^64 symbols (not modelled).
 * Methods that reach a Rust `assert!` return `Outcome _`: the inner `Composition` assertions and
   `select`'s `assert!(!interval.str.is_empty())` (site `sel-empty-str`).  Methods whose only
@@ -74,8 +75,8 @@ def isBob (e : CompEditor) : Bool := 0 == e.cursor
 /-- `is_end_of_buffer` -/
 def isEob (e : CompEditor) : Bool := e.inner.len == e.cursor
 
-/-- `clear` (the cursor stack is kept) -/
-def clear (e : CompEditor) : CompEditor := { e with inner := e.inner.clear, cursor := 0 }
+/-- `clear`: empties the composition, resets the cursor and drops the saved cursors (F25 fix) -/
+def clear (e : CompEditor) : CompEditor := { e with inner := e.inner.clear, cursor := 0, stack := [] }
 
 /-- `remove_front` -/
 def removeFront (e : CompEditor) (n : Nat) : Outcome CompEditor :=
